@@ -745,6 +745,11 @@ impl<Front: SocketHandler> ConnectionH1<Front> {
                         }
                         self.readiness.interest.insert(Ready::READABLE);
                         let stream = &mut context.streams[stream_id];
+                        // `context.id` is the REQUEST id (Sozu-Id, the generated
+                        // X-Request-Id, the access log's request_id): the next
+                        // request of the connection gets its own, as an HTTP/2
+                        // stream does (`session_id` is the connection-wide one)
+                        stream.context.id = Ulid::generate();
                         stream.context.reset();
                         stream.back.clear();
                         stream.back.storage.clear();
